@@ -66,6 +66,12 @@ pub fn check_window(c: &WindowCase, st: &mut Stats) -> CheckResult {
         let e = if c.hann { hann_ref(p) } else { 1.0 };
         ensure!((v - e).abs() <= tol, "window({}) value {} = {}, W({}/{}) = {}", c.n, i, v, i, c.n - 1, e);
     }
+    // positional use of the (endless) window iterator agrees with next()
+    if c.hann {
+        vp_core::iterlaws::iter_laws("Window<f64, Hann>", || Window::<f64, Hann>::new(c.n), &vals, false)?;
+    } else {
+        vp_core::iterlaws::iter_laws("Window<f64, Rectangle>", || Window::<f64, Rectangle>::new(c.n), &vals, false)?;
+    }
     // multi-channel / f32 frames carry the same value on every channel
     let v2: Vec<[f32; 2]> = if c.hann { Window::<[f32; 2], Hann>::new(c.n).take(c.n).collect() } else { Window::<[f32; 2], Rectangle>::new(c.n).take(c.n).collect() };
     for (i, f) in v2.iter().enumerate() {
@@ -137,7 +143,7 @@ impl WF for i16 {
     }
 }
 
-fn chunks_typed<F: WF, W: WindowFn<f64, Output = f64>>(c: &ChunkCase, hann: bool) -> CheckResult {
+fn chunks_typed<F: WF, W: WindowFn<f64, Output = f64> + Clone>(c: &ChunkCase, hann: bool) -> CheckResult {
     let frames: Vec<F> = (0..c.l).map(F::at).collect();
     let mut it: Windower<F, W> = Windower::new(&frames[..], c.bin, c.hop);
     let expected = if c.l >= c.bin { (c.l - c.bin) / c.hop + 1 } else { 0 };
@@ -153,8 +159,11 @@ fn chunks_typed<F: WF, W: WindowFn<f64, Output = f64>>(c: &ChunkCase, hann: bool
             None => break,
             Some(chunk) => {
                 ensure!(k < expected, "windower yielded chunk {} but only {} are expected (L = {}, bin = {}, hop = {})", k, expected, c.l, c.bin, c.hop);
-                let got: Vec<F> = chunk.take(c.bin).collect();
+                let got: Vec<F> = chunk.clone().take(c.bin).collect();
                 ensure!(got.len() == c.bin, "chunk {} has {} frames, bin = {}", k, got.len(), c.bin);
+                if k < 2 {
+                    vp_core::iterlaws::iter_laws("Windowed chunk", || chunk.clone(), &got, false)?;
+                }
                 for i in 0..c.bin {
                     let p = i as f64 / (c.bin - 1) as f64;
                     let w = if hann { hann_ref(p) } else { 1.0 };
